@@ -5,7 +5,8 @@ set -u
 wt="$1"
 cd "$wt" || exit 2
 git checkout -- . 2>/dev/null
-build() { cmake -G Ninja -B build -DCMAKE_BUILD_TYPE=Release -DNANO_BUILD_CMD_APP=OFF >/dev/null 2>&1 && cmake --build build -j12 >/tmp/verify_build_$$.log 2>&1; }
+export CCACHE_DIR=/verif/build/ccache-verify CCACHE_MAXSIZE=8G
+build() { cmake -G Ninja -B build -DCMAKE_BUILD_TYPE=Release -DNANO_BUILD_CMD_APP=OFF -DCMAKE_CXX_COMPILER_LAUNCHER=ccache >/dev/null 2>&1 && cmake --build build -j12 >/tmp/verify_build_$$.log 2>&1; }
 build || { echo "baseline build failed"; tail -20 /tmp/verify_build_$$.log; exit 2; }
 for d in _seeded/*/; do
   name=$(basename "$d"); log="$d/verify.log"; : > "$log"
@@ -21,6 +22,6 @@ for d in _seeded/*/; do
     echo "build with change FAILED" | tee -a "$log"; tail -5 /tmp/verify_build_$$.log | tee -a "$log"
   fi
   git checkout -- .
-  build
+  [ "$(ls -d _seeded/*/ | tail -1)" = "$d" ] || build
 done
 rm -rf build /tmp/verify_build_$$.log
